@@ -318,6 +318,9 @@ def fixed_corpus():
     # text that fails at once: the restart after a skip must forget the context accumulated on the way
     out.append(Def([L('token', '-'), L('regex', '[a-z]+'), L('skip', '[ \\n]+'), L('skip', '--[ -~]*'), L('token', '/'), L('skip', '//[ -~]*'),
                     L('token', '#!'), L('skip', '#')], origin='fixed:skip-through-token'))
+    # a pattern that needs a terminator after a run over a class open at the top (or bottom): a truncated run is one error
+    out.append(Def([L('regex', '(?-u)[\\x80-\\xff]*[\\x00-\\x7f]'), ], utf8=False, origin='fixed:bytes-varint'))
+    out.append(Def([L('regex', '(?-u)[\\x00-\\x20]*[\\x41-\\x5a]'), L('regex', '(?-u)[^"]*"', prio=1)], utf8=False, origin='fixed:bytes-openrange'))
     # the same text matched by two patterns, one of them only in some contexts, at different priorities
     out.append(Def([L('regex', '[a-z]+'), L('regex', 'end$', prio=100), L('token', 'a', prio=3), L('regex', 'a(?-u:\\b)', prio=10), L('skip', ' ')],
                    origin='fixed:look-prio'))
